@@ -14,6 +14,7 @@ From EV Require Import Model.Script Model.ScriptExpiry.
 From EV Require Import Proofs.KeyspaceLemmas Proofs.ProgLemmas Proofs.ScriptLemmas Proofs.HandlerClasses.
 From EV Require Import Proofs.ExpiryProofs Proofs.ExpiryCmds Proofs.ExpiryInherit Proofs.ExpiryRename.
 From EV Require Spec.SpecExpiry.
+From EV Require Import Model.GoDuration Proofs.GoDurationProofs.
 Local Open Scope Z_scope.
 
 (** ** The model's view is the reference's [visible]; [purge_state] is the reference's [purge]. *)
@@ -218,6 +219,29 @@ Proof.
   unfold cur_of in *. rewrite He in *. simpl in R1, R2, R3, R4. rewrite Ht in *. done.
 Qed.
 Print Assumptions C04_ttl_reports_deadline.
+
+(** ** The model's unbounded arithmetic is Go's [time.Duration] arithmetic on the range the tie is claimed for.
+    [clock.Now().Add(time.Duration(n) * time.Second)] read in milliseconds is [now + n * 1000], and
+    [... * time.Millisecond] is [now + n], for every clock (sub-millisecond part included) and every relative
+    time whose product fits [int64] nanoseconds; one step beyond, the product wraps and a positive relative
+    time yields a deadline in the past (finding KF-C04-duration-overflow: [EXPIRE k 9223372037]). *)
+Theorem C04_go_duration_exact : forall now_ns n,
+  (- max_rel_s <= n <= max_rel_s -> go_deadline_ms now_ns (go_duration ns_per_s n) = ms_of_ns now_ns + n * 1000) /\
+  (- max_rel_ms <= n <= max_rel_ms -> go_deadline_ms now_ns (go_duration ns_per_ms n) = ms_of_ns now_ns + n).
+Proof. intros now_ns n. split; intros Hn; [exact (go_deadline_s_exact now_ns n Hn) | exact (go_deadline_ms_exact now_ns n Hn)]. Qed.
+Print Assumptions C04_go_duration_exact.
+
+Theorem C04_duration_overflow_refuted : forall now_ns,
+  go_deadline_ms now_ns (go_duration ns_per_s (max_rel_s + 1)) < ms_of_ns now_ns /\
+  go_deadline_ms now_ns (go_duration ns_per_ms (max_rel_ms + 1)) < ms_of_ns now_ns.
+Proof. intros now_ns. split; [exact (proj1 (go_deadline_s_overflow now_ns)) | exact (proj1 (go_deadline_ms_overflow now_ns))]. Qed.
+Print Assumptions C04_duration_overflow_refuted.
+
+Theorem C04_duration_range_is_int64 :
+  max_rel_s * ns_per_s < two63 <= (max_rel_s + 1) * ns_per_s /\
+  max_rel_ms * ns_per_ms < two63 <= (max_rel_ms + 1) * ns_per_ms.
+Proof. exact max_rel_is_int64_limit. Qed.
+Print Assumptions C04_duration_range_is_int64.
 
 (** ** Non-vacuity *)
 Definition h0 : list hevent :=
